@@ -219,4 +219,192 @@ theorem mkObjs_filterMap {β : Type} (g : HObj → Option β) (h : (Int × EKind
     obtain ⟨t, k, mb⟩ := e
     simp only [mkObjs, List.filterMap_cons, hg, mkObjs_filterMap g h hg (c + 1) rest]
 
+/-! ### the quarter-duration table under a replay (round 6) -/
+
+/-- no redundant entry: the times increase strictly and every change changes the value (what a table looks like when
+    no `set_quarter_duration` call has re-set an existing entry to the duration already in force before it) -/
+def QDNormal : List (Int × Nat) → Prop
+  | [] => True
+  | [_] => True
+  | a :: b :: rest => a.1 < b.1 ∧ a.2 ≠ b.2 ∧ QDNormal (b :: rest)
+
+instance : (l : List (Int × Nat)) → Decidable (QDNormal l)
+  | [] => isTrue trivial
+  | [_] => isTrue trivial
+  | a :: b :: rest =>
+    have : Decidable (QDNormal (b :: rest)) := instDecidableQDNormal (b :: rest)
+    by unfold QDNormal; exact inferInstance
+
+/-- a change after every entry, to a value other than the last one, is appended -/
+theorem setQDAux_append (t : Int) (q : Nat) : ∀ (T : List (Int × Nat)) (prev : Option Nat),
+    (∀ e ∈ T, e.1 < t) → (match T.getLast? with | some e => e.2 ≠ q | none => prev ≠ some q) →
+    TimeMap.setQDAux t q prev T = T ++ [(t, q)]
+  | [], prev, _, h => by
+    simp only [List.getLast?_nil] at h
+    simp [TimeMap.setQDAux, h]
+  | (t0, q0) :: rest, prev, hlt, h => by
+    have h0 : t0 < t := hlt (t0, q0) (List.mem_cons_self ..)
+    unfold TimeMap.setQDAux
+    rw [if_pos h0]
+    rw [setQDAux_append t q rest (some q0) (fun e he => hlt e (List.mem_cons_of_mem _ he))]
+    · rfl
+    · cases rest with
+      | nil =>
+        simp only [List.getLast?_singleton] at h
+        simp only [List.getLast?_nil]
+        intro hc; exact h (Option.some.inj hc)
+      | cons b r =>
+        rw [List.getLast?_cons_cons] at h
+        exact h
+
+/-- the quarter-duration table after a block of `set_quarter_duration` calls -/
+def replayQD (init l : List (Int × Nat)) : List (Int × Nat) := l.foldl (fun qd e => TimeMap.setQD qd e.1 e.2) init
+
+/-- replaying a table without redundant entries, entry by entry, reproduces it -/
+theorem replayQD_normal : ∀ (l T : List (Int × Nat)) (a : Int × Nat), QDNormal (a :: l) → (∀ e ∈ T, e.1 < a.1) →
+    replayQD (T ++ [a]) l = T ++ a :: l
+  | [], T, a, _, _ => rfl
+  | b :: l', T, a, hn, hT => by
+    obtain ⟨hab, hv, hn'⟩ := hn
+    unfold replayQD
+    rw [List.foldl_cons]
+    have hstep : TimeMap.setQD (T ++ [a]) b.1 b.2 = (T ++ [a]) ++ [b] := by
+      unfold TimeMap.setQD
+      rw [setQDAux_append]
+      · intro e he
+        rcases List.mem_append.mp he with he | he
+        · have := hT e he; omega
+        · rw [List.mem_singleton.mp he]; exact hab
+      · rw [List.getLast?_append_of_ne_nil _ (List.cons_ne_nil _ _)]
+        exact hv
+    rw [hstep]
+    have := replayQD_normal l' (T ++ [a]) b hn' (by
+      intro e he
+      rcases List.mem_append.mp he with he | he
+      · have := hT e he; omega
+      · rw [List.mem_singleton.mp he]; exact hab)
+    unfold replayQD at this
+    rw [this]
+    simp
+
+theorem foldl_setQD_qd (l : List (Int × Nat)) :
+    ∀ s : HPart, ((l.map fun e => HistOp.setQD e.1 e.2).foldl hpStep s).qd = replayQD s.qd l := by
+  induction l with
+  | nil => intro s; rfl
+  | cons e rest ih =>
+    intro s
+    simp only [List.map_cons, List.foldl_cons]
+    rw [ih]
+    rfl
+
+/-- operations other than `set_quarter_duration` leave the quarter-duration table alone -/
+theorem foldl_no_setQD_qd : ∀ (ops : List HistOp) (st : HPart), (∀ op ∈ ops, ∀ t q, op ≠ HistOp.setQD t q) →
+    (ops.foldl hpStep st).qd = st.qd := by
+  intro ops
+  induction ops with
+  | nil => intro st _; rfl
+  | cons op rest ih =>
+    intro st hno
+    rw [List.foldl_cons, ih _ (fun o ho => hno o (List.mem_cons_of_mem _ ho))]
+    have := hno op (List.mem_cons_self ..)
+    cases op <;> simp [hpStep] at this ⊢
+    · split <;> rfl
+    · split <;> rfl
+
+/-- what `set_quarter_duration` can put into the table -/
+theorem mem_setQDAux (t : Int) (q : Nat) : ∀ (l : List (Int × Nat)) (prev : Option Nat) (e : Int × Nat),
+    e ∈ TimeMap.setQDAux t q prev l → e ∈ l ∨ e = (t, q)
+  | [], prev, e, h => by
+    unfold TimeMap.setQDAux at h
+    split at h
+    · simp at h
+    · exact Or.inr (List.mem_singleton.mp h)
+  | (t0, q0) :: rest, prev, e, h => by
+    unfold TimeMap.setQDAux at h
+    split at h
+    · rcases List.mem_cons.mp h with h | h
+      · exact Or.inl (h ▸ List.mem_cons_self ..)
+      · rcases mem_setQDAux t q rest (some q0) e h with h | h
+        · exact Or.inl (List.mem_cons_of_mem _ h)
+        · exact Or.inr h
+    · split at h
+      · rename_i heq
+        rcases List.mem_cons.mp h with h | h
+        · right; rw [h, heq]
+        · exact Or.inl (List.mem_cons_of_mem _ h)
+      · split at h
+        · exact Or.inl h
+        · rcases List.mem_cons.mp h with h | h
+          · exact Or.inr h
+          · exact Or.inl h
+
+/-! ### the hypotheses of the lookup theorems, from the order of the tables (round 6) -/
+
+/-- the clef rows carry the times of the clefs -/
+theorem clefRows_times : ∀ (clefs : List RawClef) (rows : Tbl ClefV), clefRows clefs = some rows →
+    rows.map (·.1) = clefs.map (·.1)
+  | [], rows, h => by
+    simp only [clefRows, Option.some.injEq] at h
+    rw [← h]; rfl
+  | (t, st, sign, line, oc) :: rest, rows, h => by
+    unfold clefRows at h
+    cases hc : clefSignToInt sign with
+    | none => rw [hc] at h; simp at h
+    | some code =>
+      cases hrs : clefRows rest with
+      | none => rw [hc, hrs] at h; simp at h
+      | some rs =>
+        rw [hc, hrs] at h
+        simp only [Option.some.injEq] at h
+        rw [← h]
+        simp only [List.map_cons, clefRows_times rest rs hrs]
+
+theorem clefRows_sorted (clefs : List RawClef) (rows : Tbl ClefV) (h : clefRows clefs = some rows)
+    (hs : clefs.Pairwise fun a b => a.1 ≤ b.1) : SortedLE rows := by
+  unfold SortedLE
+  have h1 : (rows.map (·.1)).Pairwise (· ≤ ·) := by
+    rw [clefRows_times clefs rows h, List.pairwise_map]
+    exact hs
+  rwa [List.pairwise_map] at h1
+
+/-- measures in the order of their starts that are non-empty and pairwise disjoint follow each other -/
+theorem ordered_of_disjoint : ∀ (l : List (Int × Int)), (∀ m ∈ l, m.1 < m.2) →
+    l.Pairwise (fun a b => a.1 ≤ b.1) → l.Pairwise (fun a b => a.2 ≤ b.1 ∨ b.2 ≤ a.1) → Ordered l
+  | [], _, _, _ => trivial
+  | [(s, e)], hpos, _, _ => hpos (s, e) (List.mem_singleton.mpr rfl)
+  | (s, e) :: (s', e') :: rest, hpos, hsort, hdis => by
+    have h1 : s < e := hpos (s, e) (List.mem_cons_self ..)
+    have h2 : s' < e' := hpos (s', e') (List.mem_cons_of_mem _ (List.mem_cons_self ..))
+    have hs := (List.pairwise_cons.mp hsort)
+    have hd := (List.pairwise_cons.mp hdis)
+    have h3 : s ≤ s' := hs.1 (s', e') (List.mem_cons_self ..)
+    have h4 : e ≤ s' ∨ e' ≤ s := hd.1 (s', e') (List.mem_cons_self ..)
+    refine ⟨h1, ?_, ordered_of_disjoint ((s', e') :: rest)
+      (fun m hm => hpos m (List.mem_cons_of_mem _ hm)) hs.2 hd.2⟩
+    rcases h4 with h4 | h4
+    · exact h4
+    · omega
+
+/-- a replay of later changes keeps the entry at 0 and adds nothing but (some of) the replayed entries -/
+theorem replayQD_head (q0 : Nat) : ∀ (l T' : List (Int × Nat)), (∀ e ∈ l, 0 < e.1) →
+    ∃ T'', replayQD ((0, q0) :: T') l = (0, q0) :: T'' ∧ ∀ e ∈ T'', e ∈ T' ∨ e ∈ l
+  | [], T', _ => ⟨T', rfl, fun _ he => Or.inl he⟩
+  | b :: l', T', hl => by
+    have hb : 0 < b.1 := hl b (List.mem_cons_self ..)
+    have hstep : TimeMap.setQD ((0, q0) :: T') b.1 b.2 = (0, q0) :: TimeMap.setQDAux b.1 b.2 (some q0) T' := by
+      unfold TimeMap.setQD
+      rw [TimeMap.setQDAux, if_pos hb]
+    obtain ⟨T'', h1, h2⟩ := replayQD_head q0 l' (TimeMap.setQDAux b.1 b.2 (some q0) T')
+      (fun e he => hl e (List.mem_cons_of_mem _ he))
+    refine ⟨T'', ?_, ?_⟩
+    · unfold replayQD
+      rw [List.foldl_cons, hstep]
+      exact h1
+    · intro e he
+      rcases h2 e he with h | h
+      · rcases mem_setQDAux _ _ _ _ e h with h | h
+        · exact Or.inl h
+        · right; rw [h]; exact List.mem_cons_self ..
+      · exact Or.inr (List.mem_cons_of_mem _ h)
+
 end C10
